@@ -29,6 +29,37 @@ pub open spec fn uuids_listed(v: Seq<Uuid>, tasks: State) -> bool {
     &&& forall|u: Uuid| tasks.dom().contains(u) ==> exists|i: int| 0 <= i < v.len() && #[trigger] v[i] == u
     &&& forall|i: int, j: int| 0 <= i < j < v.len() ==> (#[trigger] v[i]) != (#[trigger] v[j])
 }
+/// the task an operation belongs to (src/operation.rs `Operation::get_uuid`; the SQLite store keeps it in a generated column)
+pub open spec fn op_uuid(o: Operation) -> Option<Uuid> {
+    match o {
+        Operation::Create { uuid, .. } => Some(uuid),
+        Operation::Update { uuid, .. } => Some(uuid),
+        Operation::Delete { uuid, .. } => Some(uuid),
+        Operation::UndoPoint => None,
+    }
+}
+/// the operations of task `u`, oldest first ("SELECT data FROM operations where uuid=? ORDER BY id ASC")
+pub open spec fn ops_for(s: Seq<Operation>, u: Uuid) -> Seq<Operation>
+    decreases s.len()
+{
+    if s.len() == 0 { Seq::empty() } else if op_uuid(s.last()) == Some(u) { ops_for(s.drop_last(), u).push(s.last()) } else { ops_for(s.drop_last(), u) }
+}
+/// the clean-up of sync_complete: operations whose task no longer exists are dropped; undo points (no task) stay
+pub open spec fn op_live(o: Operation, tasks: State) -> bool { op_uuid(o) matches Some(u) ==> tasks.dom().contains(u) }
+pub open spec fn live_ops(s: Seq<Operation>, tasks: State) -> Seq<Operation>
+    decreases s.len()
+{
+    if s.len() == 0 { Seq::empty() } else if op_live(s.last(), tasks) { live_ops(s.drop_last(), tasks).push(s.last()) } else { live_ops(s.drop_last(), tasks) }
+}
+/// the tasks named by the working set that exist ("tasks JOIN working_set ON tasks.uuid = working_set.uuid"), one entry per listing
+pub open spec fn pending_of(ws: Seq<Option<Uuid>>, tasks: State) -> Seq<(Uuid, Map<Seq<char>, Seq<char>>)>
+    decreases ws.len()
+{
+    if ws.len() == 0 { Seq::empty() }
+    else if ws.last() is Some && tasks.dom().contains(ws.last()->Some_0) { pending_of(ws.drop_last(), tasks).push((ws.last()->Some_0, tasks[ws.last()->Some_0])) }
+    else { pending_of(ws.drop_last(), tasks) }
+}
+pub open spec fn pairs_view(v: Seq<(Uuid, TaskMap)>) -> Seq<(Uuid, Map<Seq<char>, Seq<char>>)> { Seq::new(v.len(), |i: int| (v[i].0, v[i].1@)) }
 pub open spec fn storage_err(e: Error) -> bool { !(e is OutOfSync) }
 pub open spec fn is_empty_view(s: TxnView) -> bool {
     s.tasks.dom() =~= Set::<Uuid>::empty() && s.ws =~= seq![None::<Uuid>] && s.base == Uuid::nil_spec() && s.unsynced.len() == 0
@@ -55,7 +86,8 @@ pub trait StorageTxn: Send {
     fn get_pending_tasks(&mut self) -> (r: Result<Vec<(Uuid, TaskMap)>>)
         requires old(self).inv(),
         ensures final(self).inv(), final(self).st() == old(self).st(), final(self).stored() == old(self).stored(),
-            r matches Err(e) ==> storage_err(e),
+            // the listed tasks that exist, in any order
+            match r { Ok(v) => pairs_view(v@).to_multiset() == pending_of(old(self).st().ws, old(self).st().tasks).to_multiset(), Err(e) => storage_err(e) },
     ;
     fn create_task(&mut self, uuid: Uuid) -> (r: Result<bool>)
         requires old(self).inv(),
@@ -109,7 +141,8 @@ pub trait StorageTxn: Send {
     fn get_task_operations(&mut self, uuid: Uuid) -> (r: Result<Vec<Operation>>)
         requires old(self).inv(),
         ensures final(self).inv(), final(self).st() == old(self).st(), final(self).stored() == old(self).stored(),
-            r matches Err(e) ==> storage_err(e),
+            // "Get the set of operations for the given task": synced or not; both stores list them oldest first (ORDER BY id ASC)
+            match r { Ok(v) => v@ == ops_for(old(self).st().synced + old(self).st().unsynced, uuid), Err(e) => storage_err(e) },
     ;
     fn unsynced_operations(&mut self) -> (r: Result<Vec<Operation>>)
         requires old(self).inv(),
@@ -145,7 +178,9 @@ pub trait StorageTxn: Send {
             match r {
                 // all operations are marked as synced; the storage may clean up the synced history
                 Ok(_) => final(self).st().unsynced == Seq::<Operation>::empty() && final(self).st().tasks == old(self).st().tasks
-                    && final(self).st().base == old(self).st().base && final(self).st().ws == old(self).st().ws,
+                    && final(self).st().base == old(self).st().base && final(self).st().ws == old(self).st().ws
+                    // the clean-up both stores perform: history of tasks that no longer exist is dropped, nothing else
+                    && final(self).st().synced == live_ops(old(self).st().synced + old(self).st().unsynced, old(self).st().tasks),
                 Err(e) => storage_err(e) && final(self).st() == old(self).st(),
             },
     ;
